@@ -537,6 +537,8 @@ func runC15(r *core.Run) {
 	c15AllBytes(r)
 	c15FanOut(r)
 	c15BufferReuse(r)
+	c15ManyWords(r)
+	c15NestedForEach(r)
 	// The BFS below merges histories that reach the same trie (its state key is the JSON form). That is
 	// sound for state held IN the trie; state held beside it (a package-level hint about the last Add, a
 	// cache keyed by the last argument) is not part of the key, so two histories with equal keys may have
@@ -683,4 +685,242 @@ func pow(b, e int) int {
 		out *= b
 	}
 	return out
+}
+
+// c15ManyWords: a trie that changes its representation with size (children in an array up to some
+// count, a map beyond; words above some length stored as a tail) goes wrong at one size only. EVERY
+// number of members 0..N and EVERY word length 0..N are met: members are added one at a time, every
+// few steps the trie is observed, rebuilt from JSON and observed again; then the members are deleted
+// one at a time in another order, observed the same way.
+func c15ManyWords(r *core.Run) {
+	type c15Many struct {
+		Kind string `json:"kind"`
+		N    int    `json:"n"`
+	}
+	hi := core.Pick(r, 300, 1200)
+	r.Bound("many-words", fmt.Sprintf("tries growing to %d members (words = base-3 numerals over {a,b,c} behind a common prefix; words of the SAME length so none absorbs another) and single words of every length 0..%d; observed after every step", hi, hi))
+	core.Clause(r, "many-words", core.Opts{Rule: "kind 'members': n words are added one by one and then deleted one by one in a different order, after EVERY step Has on the word / a prefix / an extension and the ForEach multiset against the set model, and a JSON rebuild every 16 steps; kind 'length': one word of n bytes next to a sibling that shares n-1 of them: Add, Has on every prefix, JSON rebuild, Delete of the sibling, Delete; non-trivial = n >= 2"},
+		func(emit func(c15Many) bool) {
+			emit(c15Many{"members", hi})
+			for n := 0; n <= hi; n++ {
+				if !emit(c15Many{"length", n}) {
+					return
+				}
+			}
+		},
+		func(c c15Many) core.Outcome {
+			var fail string
+			evals := 0
+			p := catch(func() {
+				t, m := trie.New(), ref.TrieSet{}
+				rebuild := func(what string) bool {
+					b, err := json.Marshal(t)
+					if err != nil {
+						fail = what + ": MarshalJSON failed: " + err.Error()
+						return false
+					}
+					t2 := trie.New()
+					if err := json.Unmarshal(b, t2); err != nil {
+						fail = what + ": UnmarshalJSON failed on own output: " + err.Error()
+						return false
+					}
+					var got []string
+					t2.ForEach(func(b []byte) bool { got = append(got, string(b)); return true })
+					sort.Strings(got)
+					if want := m.Members(); strings.Join(got, "\x00") != strings.Join(want, "\x00") || len(got) != len(want) {
+						fail = fmt.Sprintf("%s: the trie rebuilt from JSON has %d members, the model %d", what, len(got), len(want))
+						return false
+					}
+					return true
+				}
+				if c.Kind == "length" {
+					w := make([]byte, c.N)
+					for i := range w {
+						w[i] = "abc"[(i+i/3+i/7)%3]
+					}
+					sib := append([]byte(nil), w...)
+					if c.N > 0 {
+						sib[c.N-1] = 'z'
+					}
+					for _, op := range []string{"+" + string(w), "+" + string(sib)} {
+						if fail = applyTrieOp(t, m, op); fail != "" {
+							return
+						}
+					}
+					evals += 2
+					for i := 0; i <= c.N; i++ {
+						if got, want := t.Has(w[:i]), m.Has(string(w[:i])); got != want {
+							fail = fmt.Sprintf("word of %d bytes: Has(prefix of %d bytes) = %v, model %v", c.N, i, got, want)
+							return
+						}
+					}
+					if fail = observeTrie(t, m, []string{string(w), string(sib), string(w) + "a"}, fmt.Sprintf("word of %d bytes and its sibling", c.N)); fail != "" || !rebuild(fmt.Sprintf("word of %d bytes", c.N)) {
+						return
+					}
+					if c.N > 0 {
+						if fail = applyTrieOp(t, m, "-"+string(sib)); fail != "" {
+							return
+						}
+						if fail = observeTrie(t, m, []string{string(w), string(sib), string(w[:c.N-1])}, fmt.Sprintf("word of %d bytes after its sibling was deleted", c.N)); fail != "" {
+							return
+						}
+						if fail = applyTrieOp(t, m, "-"+string(w)); fail != "" {
+							return
+						}
+						fail = observeTrie(t, m, []string{string(w), string(w[:1])}, fmt.Sprintf("after the word of %d bytes was deleted", c.N))
+					}
+					return
+				}
+				word := func(i int) string {
+					b := []byte("p......")
+					for j := 6; j >= 1; j-- {
+						b[j] = "abc"[i%3]
+						i /= 3
+					}
+					return string(b)
+				}
+				for i := 0; i < c.N; i++ {
+					w := word(i * 7 % c.N) // not in lexical order
+					if fail = applyTrieOp(t, m, "+"+w); fail != "" {
+						return
+					}
+					evals++
+					if fail = observeTrie(t, m, []string{w, w[:3], w + "a", word((i + 1) * 7 % c.N)}, fmt.Sprintf("after %d Adds", i+1)); fail != "" {
+						return
+					}
+					if i%16 == 15 && !rebuild(fmt.Sprintf("after %d Adds", i+1)) {
+						return
+					}
+				}
+				for i := 0; i < c.N; i++ {
+					w := word(i * 11 % c.N)
+					if fail = applyTrieOp(t, m, "-"+w); fail != "" {
+						return
+					}
+					evals++
+					if fail = observeTrie(t, m, []string{w, w[:3], word((i + 1) * 11 % c.N)}, fmt.Sprintf("after %d Adds and %d Deletes", c.N, i+1)); fail != "" {
+						return
+					}
+					if i%16 == 15 && !rebuild(fmt.Sprintf("after %d Adds and %d Deletes", c.N, i+1)) {
+						return
+					}
+				}
+			})
+			if p != "" {
+				return core.Failf("%s %d: panic: %s", c.Kind, c.N, p)
+			}
+			if fail != "" {
+				return core.Failf("%s", fail)
+			}
+			return core.Outcome{Class: c.Kind, Nontrivial: c.N >= 2, Evals: max(evals, 1)}
+		})
+}
+
+// c15NestedForEach: ForEach is read-only, so its callback may look at the trie again: Has, and ForEach
+// itself (all-pairs loops over the members are written that way). The outer walk must still report every
+// member exactly once; the inner one too. A path buffer kept in the trie between calls serves one walk
+// at a time and shows only when a walk starts while another is in progress - and only after some earlier
+// walk has left the buffer behind, so one complete walk comes first.
+func c15NestedForEach(r *core.Run) {
+	type c15Nest struct {
+		Words []string `json:"words"`
+	}
+	words := enum.AllStrings("ab", 3)[1:]
+	r.Bound("nested-foreach", "every reachable trie over {a,b}^<=3 (676 states) and every non-empty subset of 6 long words sharing prefixes of 2..70 bytes; after one complete ForEach: an outer ForEach whose callback runs a complete inner ForEach and Has on every word, at every outer position")
+	core.Clause(r, "nested-foreach", core.Opts{Rule: "one complete ForEach, then ForEach with a complete ForEach (and Has of every probe) inside its callback at EVERY outer position: outer and every inner walk report exactly the members, each once; non-trivial = at least 2 members"},
+		func(emit func(c15Nest) bool) {
+			seen := map[string]bool{}
+			for mask := 0; mask < 1<<len(words); mask++ {
+				var ws []string
+				t := trie.New()
+				for i, w := range words {
+					if mask>>i&1 == 1 {
+						ws = append(ws, w)
+						t.Add([]byte(w))
+					}
+				}
+				k, _ := json.Marshal(t)
+				if seen[string(k)] {
+					continue
+				}
+				seen[string(k)] = true
+				if !emit(c15Nest{ws}) {
+					return
+				}
+			}
+			long := []string{strings.Repeat("a", 9), strings.Repeat("a", 8) + "b", strings.Repeat("b", 20), strings.Repeat("ab", 35), strings.Repeat("ab", 34) + "ba", "aa1"}
+			for mask := 1; mask < 1<<len(long); mask++ {
+				var ws []string
+				for i, w := range long {
+					if mask>>i&1 == 1 {
+						ws = append(ws, w)
+					}
+				}
+				if !emit(c15Nest{ws}) {
+					return
+				}
+			}
+		},
+		func(c c15Nest) core.Outcome {
+			t, m := trie.New(), ref.TrieSet{}
+			for _, w := range c.Words {
+				t.Add([]byte(w))
+				m.Add(w)
+			}
+			want := strings.Join(m.Members(), "\x00")
+			walk := func(inside func()) string {
+				var got []string
+				t.ForEach(func(b []byte) bool {
+					got = append(got, string(b))
+					if inside != nil {
+						inside()
+					}
+					return len(got) < 1000
+				})
+				sort.Strings(got)
+				return strings.Join(got, "\x00")
+			}
+			var fail string
+			evals := 0
+			p := catch(func() {
+				if got := walk(nil); got != want {
+					fail = fmt.Sprintf("ForEach reports %q, members %q", got, want)
+					return
+				}
+				evals++
+				for at := 1; at <= len(m); at++ {
+					n := 0
+					outer := walk(func() {
+						n++
+						if n != at {
+							return
+						}
+						evals++
+						if inner := walk(nil); inner != want && fail == "" {
+							fail = fmt.Sprintf("a complete ForEach started from the callback of another one (at its item %d) reports %q, members %q", at, strings.ReplaceAll(inner, "\x00", " "), m.Members())
+						}
+						for _, w := range c.Words {
+							if !t.Has([]byte(w)) && fail == "" {
+								fail = fmt.Sprintf("Has(%q) is false inside a ForEach callback", w)
+							}
+						}
+					})
+					evals++
+					if fail != "" {
+						return
+					}
+					if outer != want {
+						fail = fmt.Sprintf("ForEach whose callback ran another complete ForEach at item %d reports %q, members %q", at, strings.ReplaceAll(outer, "\x00", " "), m.Members())
+						return
+					}
+				}
+			})
+			if p != "" {
+				return core.Failf("trie of %q: nested ForEach: panic: %s", c.Words, p)
+			}
+			if fail != "" {
+				return core.Failf("trie of %q: %s", c.Words, fail)
+			}
+			return core.Outcome{Class: fmt.Sprint("members=", min(len(m), 3)), Nontrivial: len(m) >= 2, Evals: max(1, evals)}
+		})
 }
